@@ -1,11 +1,12 @@
 import Driver.Util
 import RxnModel.Model.Runner
 /-!
-Driver section for C04. Header `M C04 <nOps> <keyGroupCount>`.
-Ops `read <id>:<keyhex>:<cnt> …` and `barrier <id>` build the read order; every other op only stirs the schedule
-of the implementation (timer expiries, fetch completions, operator back-pressure, parked flushers) and is answered
-`-`: by `C04.per_operator_stream` / `C04.delivery_complete` the streams do not depend on the schedule.
-`end` prints, per operator, `Runner.project` of the read order — the definition the theorems are about.
+Driver section for C04. Header `M C04 <nOps> <keyGroupCount> <maxSize> <delay01>`. Trace validation (FeedImpl):
+every line is `op ## events the implementation logged during the op`. The op extends the scripted read order
+(`read`, `barrier`, `readbar`, `midbar`, `wm`, `midwm`) or only stirs the implementation's schedule; the events are
+replayed through `Runner.step` (the transition system the theorems are about) and answered by echoing them if each is
+enabled (after hidden router steps), by `REJECT …` otherwise. `end` additionally prints, per operator,
+`Runner.project` of the read order, the cuts `cutsOf`, and whether the replayed model state agrees with both.
 -/
 namespace Driver.C04
 open Rxn Driver Runner
@@ -20,7 +21,12 @@ def keyOfRec (r : Rec) : List KEv := (List.range r.cnt).map (fun j => { key := r
 structure DSt where
   nOps : Nat
   kgc : Nat
-  logical : List (Item Rec) := []
+  logical : List (Item Rec) := []     -- the scripted read order (specification)
+  recs : List Rec := []               -- every scripted record
+  script : List Rec := []             -- scripted records the reader has not handed out yet
+  m : Runner.St Rec                   -- the model state reached by replaying the implementation's events
+  bad : Option String := none         -- first event of the implementation that is not a step of the model
+  ticksDue : Nat := 0                 -- ticks performed in the model whose `W` event has not been seen yet
 
 def parseRec (s : String) : Rec :=
   match s.splitOn ":" with
@@ -40,25 +46,173 @@ def showStreams (st : DSt) : String :=
     let evs := (project (cfg st) o st.logical).map showEv
     s!"o{o}=" ++ (if evs.isEmpty then "-" else joinWith "," evs))
 
-def step (st : DSt) : List String → DSt × String
-  | "read" :: recs => ({ st with logical := st.logical ++ recs.map (fun r => Item.record (parseRec r)) }, "-")
-  | ["barrier", id] => ({ st with logical := st.logical ++ [Item.barrier (natOr id)] }, "-")
-  -- a checkpoint request that arrives while the read is being fetched / in the middle of enqueueing it: by
-  -- `C04.barrier_cut` the barrier still comes after every record of that read
-  | "readbar" :: id :: recs =>
-    ({ st with logical := st.logical ++ recs.map (fun r => Item.record (parseRec r)) ++ [Item.barrier (natOr id)] }, "-")
-  | "midbar" :: id :: recs =>
-    ({ st with logical := st.logical ++ recs.map (fun r => Item.record (parseRec r)) ++ [Item.barrier (natOr id)] }, "-")
+/-! ### replay of the implementation's events through `Runner.step`
+
+The harness logs, in the order they happen: `R:<n>` (the reader handed out a read of n records), `K:<id>`
+(`Checkpoint()` was called for barrier id), `T`/`W` (a watermark tick became due / the loop took it), `D:<o>:<batch>` (`HandleEventBatch`
+entered on operator o with that batch), `X:<o>` (it returned). Each must be a step of the transition system the theorems
+are about, possibly after hidden steps (enq, rfEmit, the router's sTake/sAdd/sIsFull/sFlush) that have no observable
+of their own; an event that is not enabled is answered `REJECT`. -/
+
+def tryActs (c : Cfg Rec) (s : Runner.St Rec) : List (Act Rec) → Option (Runner.St Rec)
+  | [] => some s
+  | a :: as => (Runner.step c s a).bind (fun s1 => tryActs c s1 as)
+
+/-- one hidden step: the router's next action if it has one, else a result becoming available, else the next enqueue -/
+def hidden (c : Cfg Rec) (s : Runner.St Rec) : Option (Runner.St Rec) :=
+  [Act.sAdd, .sIsFull, .sFlush, .sTake, .rfEmit, .enq].firstM (fun a => Runner.step c s a)
+
+def parseEv (st : DSt) (w : String) : Ev :=
+  if w == "w" then .wm
+  else if w.startsWith "b" then .barrier (natOr (w.drop 1).toString)
+  else match w.splitOn "." with
+    | [a, j] =>
+      let key := ((st.recs.find? (fun r => r.id == natOr a)).map (·.key)).getD []
+      .keyed { key := key, src := natOr a, idx := natOr j }
+    | _ => .wm
+
+def parseBatch (st : DSt) (w : String) : List Ev :=
+  if w == "-" || w == "" then [] else (w.splitOn ",").map (parseEv st)
+
+/-- ways the model can hand batch `b` to operator `o` right now -/
+def deliverNow (c : Cfg Rec) (s : Runner.St Rec) (o : Nat) (b : List Ev) : Option (Runner.St Rec) :=
+  let handed (s1 : Runner.St Rec) : Bool := (s1.ops o).recv.getLast? == some b && (s1.ops o).recv.length == (s.ops o).recv.length + 1
+  let size := match s.spc with
+    | .handoff o' b' => if o' == o && b' == b then Runner.step c s .sSend else none
+    | _ => none
+  let byTok (t : Nat) := (tryActs c s [.staleTok o t, .oTok o, .oTFlush o]).filter handed
+  (size.filter handed).orElse fun _ => (byTok (s.ops o).b.token).orElse fun _ => byTok 0
+
+/-- the operator an event belongs to (`D:<o>:…`, `X:<o>`) -/
+def evOp (w : String) : Option Nat :=
+  match w.splitOn ":" with
+  | "D" :: o :: _ => some (natOr o)
+  | ["X", o] => some (natOr o)
+  | _ => none
+
+/-- enqueue the rest of the current read (the loop finishes a read before it does anything else) -/
+def finishRead (c : Cfg Rec) : Nat → Runner.St Rec → Runner.St Rec
+  | 0, s => s
+  | n + 1, s => match s.readBuf with
+    | [] => s
+    | _ => match Runner.step c s .enq with
+      | some s1 => finishRead c n s1
+      | none => s
+
+/-- events of the loop goroutine and operator returns: steps that need no search -/
+def applySimple (st : DSt) (w : String) : DSt :=
+  let c := cfg st
+  let reject (why : String) : DSt := { st with bad := some s!"REJECT {w} ({why})" }
+  match w.splitOn ":" with
+  | ["R", n] =>
+    let k := natOr n
+    let rs := st.script.take k
+    let s0 := finishRead c 10000 st.m
+    if rs.length != k then reject "reader handed out more than was scripted" else
+    match Runner.step c s0 (.fetch rs) with
+    | some s1 => { st with m := s1, script := st.script.drop k }
+    | none => reject "fetch not enabled"
+  | ["K", id] =>
+    match Runner.step c (finishRead c 10000 st.m) (.barrier (natOr id)) with
+    | some s1 => { st with m := s1 }
+    | none => reject "barrier not enabled"
+  -- `T`: a watermark tick is due. Until the loop's select takes it the reader hands out nothing, so the loop finishes the
+  -- current read (if any) and then takes the tick: that is where the model performs it. `W` (logged by the ticking
+  -- goroutine once the loop has it) only has to be preceded by its `T`.
+  | ["T"] =>
+    match Runner.step c (finishRead c 10000 st.m) .tick with
+    | some s1 => { st with m := s1, ticksDue := st.ticksDue + 1 }
+    | none => reject "tick not enabled"
+  | ["W"] => if st.ticksDue > 0 then { st with ticksDue := st.ticksDue - 1 } else reject "tick taken that was not due"
+  | ["X", o] =>
+    match Runner.step c st.m (.oDone (natOr o)) with
+    | some s1 => { st with m := s1 }
+    | none => reject "operator is not inside HandleEventBatch"
+  | _ => reject "unknown event"
+
+/-- a later `D` event that can be performed right now and is the first pending event of its operator: the batch was
+taken (the step of the model) before the operator goroutine got to log it, and other goroutines were logged first -/
+def findEarly (st : DSt) (c : Cfg Rec) : List String → List String → Option (Runner.St Rec × List String)
+  | _, [] => none
+  | seen, w :: rest =>
+    match w.splitOn ":" with
+    | ["D", o, b] =>
+      if seen.any (fun v => evOp v == some (natOr o)) then findEarly st c (seen ++ [w]) rest
+      else match deliverNow c st.m (natOr o) (parseBatch st b) with
+        | some s1 => some (s1, seen ++ rest)
+        | none => findEarly st c (seen ++ [w]) rest
+    | _ => findEarly st c (seen ++ [w]) rest
+
+/-- replay the whole log. `D` events: performed if enabled now; otherwise a later `D` that is enabled now is taken first
+(see `findEarly`), otherwise one hidden step of the model, otherwise the log is not a run of the model. -/
+def replay : Nat → DSt → List String → DSt
+  | 0, st, _ => { st with bad := st.bad.orElse fun _ => some "REJECT (replay fuel exhausted)" }
+  | _, st, [] => st
+  | n + 1, st, w :: rest =>
+    if st.bad.isSome then st else
+    let c := cfg st
+    match w.splitOn ":" with
+    | ["D", o, b] =>
+      match deliverNow c st.m (natOr o) (parseBatch st b) with
+      | some s1 => replay n { st with m := s1 } rest
+      | none =>
+        match findEarly st c [] rest with
+        | some (s1, rest') => replay n { st with m := s1 } (w :: rest')
+        | none =>
+          match hidden c st.m with
+          | some s1 => replay n { st with m := s1 } (w :: rest)
+          | none => { st with bad := some s!"REJECT {w} (no schedule of the model hands this batch to the operator now)" }
+    | _ => replay n (applySimple st w) rest
+
+/-- op tokens and the implementation's output tokens -/
+def splitFeed (ws : List String) : List String × List String :=
+  (ws.takeWhile (· ≠ "##"), (ws.dropWhile (· ≠ "##")).drop 1)
+
+def addRecs (st : DSt) (recs : List String) (tail : List (Item Rec)) : DSt :=
+  let rs := recs.map parseRec
+  { st with logical := st.logical ++ rs.map Item.record ++ tail, recs := st.recs ++ rs, script := st.script ++ rs }
+
+def showDelivered (st : DSt) : String :=
+  joinWith " " ((List.range st.nOps).map fun o =>
+    let evs := (delivered st.m o).map showEv
+    s!"o{o}=" ++ (if evs.isEmpty then "-" else joinWith "," evs))
+
+def step (st0 : DSt) (ws : List String) : DSt × String :=
+  let (op, impl) := splitFeed ws
+  let evs := impl.takeWhile (· ≠ "|")
+  let evs := evs.filter (fun w => w ≠ "-" && w ≠ "timeout" && w ≠ "concurrent-HandleEventBatch")
+  -- the scripted read order first (the op), then what the implementation did during the op
+  let st1 : DSt := match op with
+    | "read" :: recs => addRecs st0 recs []
+    | ["barrier", id] => { st0 with logical := st0.logical ++ [Item.barrier (natOr id)] }
+    -- a checkpoint request that arrives while the read is being fetched / in the middle of enqueueing it: by
+    -- `C04.barrier_cut` the barrier still comes after every record of that read
+    | "readbar" :: id :: recs => addRecs st0 recs [Item.barrier (natOr id)]
+    | "midbar" :: id :: recs => addRecs st0 recs [Item.barrier (natOr id)]
+    | ["wm"] => { st0 with logical := st0.logical ++ [Item.wm] }
+    -- a tick that becomes due in the middle of a read: the watermark follows the whole read (`tick` needs `readBuf = []`)
+    | "midwm" :: recs => addRecs st0 recs [Item.wm]
+    | _ => st0
+  let st := replay 1000000 st1 evs
+  let echo := match st.bad with
+    | some why => why
+    | none => if evs.isEmpty then "-" else joinWith " " evs
+  match op with
   | ["end"] =>
     let cuts := (cutsOf st.logical 0).map (fun p => s!"{p.1}:{p.2}")
-    (st, showStreams st ++ " | ck=" ++ (if cuts.isEmpty then "-" else joinWith "," cuts) ++ " cut=ok")
-  | _ => (st, "-")
+    -- what the replayed model has handed to the operators must be the specification, and the cursors the model
+    -- snapshotted must be the cuts of the read order
+    let replay := if st.bad.isSome then "rejected"
+      else if showDelivered st != showStreams st then "model-delivered:" ++ showDelivered st
+      else if st.m.ckpts != cutsOf st.logical 0 then "model-cuts-differ" else "ok"
+    (st, echo ++ " | " ++ showStreams st ++ " | ck=" ++ (if cuts.isEmpty then "-" else joinWith "," cuts) ++ " cut=ok replay=" ++ replay)
+  | _ => (st, echo)
 
 def handle (lines : Array String) (i : Nat) (out : Array String) : Nat × Array String :=
   let hdr := if i = 0 then [] else words (lines.getD (i - 1) "")
   let st : DSt := match hdr with
-    | "M" :: "C04" :: n :: k :: _ => { nOps := natOr n, kgc := natOr k }
-    | _ => { nOps := 1, kgc := 1 }
+    | "M" :: "C04" :: n :: k :: ms :: d :: _ => { nOps := natOr n, kgc := natOr k, m := Runner.init (natOr ms) (natOr d != 0) }
+    | _ => { nOps := 1, kgc := 1, m := Runner.init 1 false }
   runLines step st lines i out
 
 end Driver.C04
